@@ -221,23 +221,25 @@ def big_collection_stream(ctx, n):
     import geometer as g
     rng = ctx.rng
     for k in range(n):
-        size = rng.choice([64, 65, 70])
+        shape = rng.choice([(64,), (65,), (70,), (8, 8), (4, 16)])
+        size = int(np.prod(shape))
         dtype = rng.choice([int, float])
+        scale = 1 if dtype is int else rng.choice([1.0, 1e-3])
         mats = []
         while len(mats) < size:
             m = np.array([[rng.randint(-3, 3) for _ in range(3)] for _ in range(3)])
             if abs(round(np.linalg.det(m))) >= 2:
                 mats.append(m)
-        T = g.TransformationCollection(np.array(mats, dtype=dtype))
+        T = g.TransformationCollection(np.array(mats, dtype=dtype).reshape(shape + (3, 3)) * scale)
         p, q = g.Point(float(rng.randint(-4, 4)), float(rng.randint(-4, 4))), g.Point(float(rng.randint(-4, 4)), float(rng.randint(5, 9)))
-        desc = f"{size} transformations ({dtype.__name__}) on the line through {p} {q}; first matrix {mats[0].tolist()}"
+        desc = f"{shape} transformations ({dtype.__name__}, scale {scale}) on the line through {p} {q}; first matrix {mats[0].tolist()}"
         ctx.case(desc)
         ctx.count(f"big-collection:{dtype.__name__}")
         r = call_impl(lambda: (T * g.join(p, q), g.join(T * p, T * q)))
         if r[0] != "ok":
             ctx.disagree(f"C07:big-collection:error:{r[1]}", desc, "lines", r[1:3], replay=[desc])
             continue
-        a, b = np.asarray(r[1][0].array, dtype=float), np.asarray(r[1][1].array, dtype=float)
+        a, b = np.asarray(r[1][0].array, dtype=float).reshape(size, 3), np.asarray(r[1][1].array, dtype=float).reshape(size, 3)
         bad = [i for i in range(size) if not proj_close_nn(a[i], b[i], 1e-8)]
         if bad:
             ctx.disagree(f"C07:big-collection:commute:{dtype.__name__}", desc, np.round(b[bad[0]], 6).tolist(), np.round(a[bad[0]], 6).tolist(), replay=[desc])
